@@ -1,6 +1,6 @@
 (* C18 — a successful homotopy run has solved theta = 1.  Statements only. *)
 From Coq Require Import ZArith QArith List Bool.
-From RT Require Import Homotopy HomotopySpec Homotopy_proofs.
+From RT Require Import Homotopy HomotopySpec Homotopy_proofs HomotopyGp HomotopyGp_proofs.
 Import ListNotations.
 Open Scope Q_scope.
 
@@ -79,3 +79,38 @@ Proof.
   - cbn; repeat split; auto with qarith; discriminate.
 Qed.
 Print Assumptions C18_nonvacuous.
+
+(* ---- homotopy wrapped around goal programming (HomotopyGp.v) -------------------------------------------
+   Seen from outside, the nested loop is the homotopy loop of Homotopy.v whose n-th inner solve succeeds
+   iff every priority of the n-th step did: all statements above carry over. *)
+Theorem C18_gp_refines :
+  forall fuel o np oracle ret steps,
+    grun fuel o np oracle = (Some ret, steps) ->
+    run fuel o (oracle_of (map s_ok steps)) = (Some ret, map s_event steps).
+Proof. exact grun_refines. Qed.
+Print Assumptions C18_gp_refines.
+
+Theorem C18_gp_protocol :
+  forall fuel o np oracle ret steps,
+    wf o -> grun fuel o np oracle = (Some ret, steps) -> trace_ok o 0 ret (map s_event steps) = true.
+Proof. exact grun_protocol. Qed.
+Print Assumptions C18_gp_protocol.
+
+(* what every single solve starts from (HomotopyGp.seeds_ok): the first priority of a step beyond
+   theta_start starts from the final solution of the last step in which every priority succeeded - never
+   from a solution of a rejected step -, the first priority at theta_start from the plain seed, every later
+   priority from the priority before it; a step succeeds iff all its np priorities were solved *)
+Theorem C18_gp_seeds :
+  forall fuel o np oracle ret steps,
+    grun fuel o np oracle = (Some ret, steps) -> seeds_ok o np steps = true.
+Proof. exact grun_seeds. Qed.
+Print Assumptions C18_gp_seeds.
+
+Example C18_gp_nonvacuous :
+  (* two priorities; the second priority fails at theta = 1: the step back to 1/2 starts from solve 1's
+     solution (tag 2), not from the priority-1 solution of the rejected step (tag 3) *)
+  grun_case 0 1 (1 # 100) 2 [true; true; true; false] =
+    [1; 8;  0; 1; 0; 1; 0;   0; 1; 1; 1; 1;   1; 1; 0; 1; 2;   1; 1; 1; 0; 3;
+            1; 2; 0; 1; 2;   1; 2; 1; 1; 5;   1; 1; 0; 1; 6;   1; 1; 1; 1; 7]%Z.
+Proof. vm_compute. reflexivity. Qed.
+Print Assumptions C18_gp_nonvacuous.
